@@ -58,8 +58,8 @@ Proof.
   destruct (if tt =? cend b then Some (crows b, [], tt)
             else if tt =? cstart b then Some ([], crows b, tt) else split_array (crows b) tt early)
     as [[[d1 d2] t']|] eqn:Er; [|discriminate].
-  intros H. bind_inv H. bind_inv H. bind_inv H. inversion H; subst.
-  apply mk_achunk_ok in Hx0 as (-> & _). apply mk_achunk_ok in Hx1 as (-> & _). cbn [crows].
+  intros H. bind_inv H. bind_inv H. inversion H; subst.
+  apply mk_achunk_ok in Hx as (-> & _). apply mk_achunk_ok in Hx0 as (-> & _). cbn [crows].
   destruct (tt =? cend b); [inversion Er; apply app_nil_r|].
   destruct (tt =? cstart b); [inversion Er; reflexivity|].
   eapply split_array_app; eauto.
@@ -71,8 +71,8 @@ Lemma asplit_at_end_rows c c1 c2 :
 Proof.
   intros Hle. unfold asplit, rows_a.
   rewrite Z.min_id, Z.max_l by lia. rewrite Z.eqb_refl.
-  intros H. bind_inv H. bind_inv H. bind_inv H. inversion H; subst.
-  apply mk_achunk_ok in Hx0 as (-> & _). apply mk_achunk_ok in Hx1 as (-> & _). cbn [crows]. auto.
+  intros H. bind_inv H. bind_inv H. inversion H; subst.
+  apply mk_achunk_ok in Hx as (-> & _). apply mk_achunk_ok in Hx0 as (-> & _). cbn [crows]. auto.
 Qed.
 
 Lemma aconcatenate_rows ocs allow c :
